@@ -28,6 +28,10 @@ def m(name, file, old, new, checks, kind="unsafe", note=""):
     M.append(dict(name=name, file=file, old=old, new=new, checks=checks, kind=kind, note=note))
 
 
+m("brute_force_steps_iter_off_by_one", "src/arrival/mod.rs",
+  ".map(|((_, _), (d2, _))| Duration::from(d2)),",
+  ".map(|((d1, _), (_, _))| Duration::from(d1)),",
+  ["C03", "C01", "C12"], note="the default steps_iter reports every step one tick early (only user-defined models and ApproximatedPoisson use it)")
 # ---- fixed-priority / FIFO / fixed point ---------------------------------------------------
 m("fp_p_tua_demand_open_interval", "src/fixed_priority/fully_preemptive.rs",
   "let tua_demand = tua.service_needed(A.closed_since_time_zero());",
